@@ -138,7 +138,9 @@ def make_wrapper(
             This means that those changes can be reverted from this point out.
             """
             self._configurable.commit()
-            object.__setattr__(self, "_reuse_pt", 0)
+            # the generation counter must never go backwards: entries cached
+            # under an earlier generation would become valid again.
+            object.__setattr__(self, "_reuse_pt", self._reuse_pt + 1)
 
         def changes_count(self):
             """current commit point for the configurable"""
